@@ -1,14 +1,96 @@
-(* C13 — property theorems only. *)
-From Coq Require Import List String.
-From Helm Require Import Values.Tree Values.Coalesce Values.Reuse.
+(* C13 — property theorems only: each closed by [exact] of a lemma proved elsewhere. *)
+From Coq Require Import List String Bool ZArith.
+From Helm Require Import Values.Tree Values.Merge Values.Coalesce Values.Reuse Values.ReuseProofs.
 Import ListNotations.
+Local Open Scope string_scope.
 
-Theorem C13_rollback_config : forall h v r,
+(* The Config recorded for an upgrade: the new values alone with reset-values; the deployed
+   revision's values under the new ones (CoalesceTables) with reuse-values or
+   reset-then-reuse-values; otherwise the new values if any were given, else the deployed
+   revision's. *)
+Theorem C13_config_spec : forall (h : history) (f : uflags) (c : chart) (vals : vmap) (r : revision),
+  step h (OUpgrade f c vals) = Some r ->
+  exists cur, current h = Some cur
+  /\ rconfig r =
+     (if reset_values f then vals
+      else if reuse_values f || reset_then_reuse_values f then coalesce_tables false vals (rconfig cur)
+      else if is_empty vals then rconfig cur else vals).
+Proof. exact upgrade_config_spec. Qed.
+Print Assumptions C13_config_spec.
+
+(* ... and what that overlay means path by path: a (non-null) value given now wins, a path the
+   new values say nothing about keeps what the deployed revision recorded *)
+Theorem C13_config_overlay : forall (f : uflags) (newv deployed : vmap),
+  reset_values f = false -> reuse_values f || reset_then_reuse_values f = true ->
+  wf (VMap deployed) ->
+  (forall p x, lookup_path p (VMap newv) = Some x -> is_table x = false -> x <> VNull ->
+               lookup_path p (VMap (config_spec f newv deployed)) = Some x)
+  /\ (forall p, defines p (VMap newv) = false ->
+                lookup_path p (VMap (config_spec f newv deployed)) = lookup_path p (VMap deployed)).
+Proof. exact overlay_paths. Qed.
+Print Assumptions C13_config_overlay.
+
+(* The chart defaults used for rendering an upgrade: with reuse-values (and not reset-values)
+   the coalesced values of the deployed revision (its stored chart under its stored Config);
+   otherwise the new chart's.  The stored chart carries those defaults, and the values the
+   templates saw are these defaults under the recorded Config. *)
+Theorem C13_defaults_spec : forall (h : history) (f : uflags) (c : chart) (vals : vmap) (r : revision),
+  step h (OUpgrade f c vals) = Some r ->
+  exists cur d, current h = Some cur
+  /\ (if negb (reset_values f) && reuse_values f
+      then coalesce_values_root (rchart cur) (rconfig cur)
+      else Some (cvalues c)) = Some d
+  /\ rchart r = set_values c d
+  /\ to_render_values (set_values c d) (rconfig r) = Some (rrendered r).
+Proof. exact upgrade_defaults_spec. Qed.
+Print Assumptions C13_defaults_spec.
+
+(* in a history whose revisions re-render to what their templates saw (true of every history
+   the operations build, C13_chain), "the coalesced values of the deployed revision" are the
+   values the deployed revision's templates saw: its defaults stay in force *)
+Theorem C13_defaults_stay_in_force : forall (h : history) (f : uflags) (c : chart) (vals : vmap) (r : revision),
+  Forall consistent h ->
+  step h (OUpgrade f c vals) = Some r ->
+  negb (reset_values f) && reuse_values f = true ->
+  exists cur, current h = Some cur /\ rchart r = set_values c (rrendered cur).
+Proof. exact reuse_defaults_are_deployed_values. Qed.
+Print Assumptions C13_defaults_stay_in_force.
+
+(* A rollback's record has the target's Config, chart and rendered values unchanged. *)
+Theorem C13_rollback_config : forall (h : history) (v : nat) (r : revision),
   step h (ORollback v) = Some r ->
   exists t, get_rev h (match v with O => List.length h - 1 | _ => v end) = Some t
             /\ rconfig r = rconfig t /\ rchart r = rchart t /\ rrendered r = rrendered t.
-Proof.
-  intros h v r H. unfold step in H. destruct (current h); [|discriminate].
-  destruct (get_rev h _) eqn:E; [|discriminate]. inversion H; subst. exists r1. auto.
-Qed.
+Proof. exact rollback_spec. Qed.
 Print Assumptions C13_rollback_config.
+
+(* Any chain of installs, upgrades and rollbacks from any history: the recorded Configs
+   afterwards are the fold of the per-step specification over the recorded Configs alone
+   (spec_chain/spec_step: install records its values, upgrade records config_spec of the
+   last revision's, rollback records the target's; failed operations record nothing), and
+   every revision of a history that started consistent re-renders to what its templates saw. *)
+Theorem C13_chain : forall (ops : list op) (h h' : history) (oks : list bool),
+  run_chain h ops = (h', oks) ->
+  map rconfig h' = spec_chain (map rconfig h) ops oks
+  /\ List.length oks = List.length ops.
+Proof. exact chain_spec. Qed.
+Print Assumptions C13_chain.
+
+Theorem C13_chain_consistent : forall (ops : list op) (h h' : history) (oks : list bool),
+  Forall consistent h -> run_chain h ops = (h', oks) -> Forall consistent h'.
+Proof. exact chain_consistent. Qed.
+Print Assumptions C13_chain_consistent.
+
+Example C13_chain_nonvacuous :
+  let '(h, oks) := run_chain [] ex_ops in
+  oks = [true; true; true; true; false; true]
+  /\ map rconfig h =
+     [ [("a", VNum 10%Z); ("u", VStr "keep")];
+       [("t", VMap [("y", VStr "u2")]); ("a", VNum 10%Z)];
+       [("t", VMap [("y", VStr "u2")]); ("a", VNum 10%Z)];
+       [("a", VNum 10%Z); ("u", VStr "keep")];
+       [] ]
+  /\ option_map rrendered (get_rev h 2)
+     = Some [("t", VMap [("y", VStr "u2"); ("x", VStr "d")]); ("a", VNum 10%Z); ("u", VStr "keep")].
+Proof. exact ex_chain. Qed.
+Print Assumptions C13_chain_nonvacuous.
